@@ -37,6 +37,7 @@ CONSTANTS Cfg0,         \* [buses |-> <<[name, parallel, maxhist]..>>, handlers 
           WithErrors,   \* handlers may raise
           WithIdle,     \* drivers may call wait_until_idle
           WithSleep,    \* handlers may sleep for a (non-zero) time in addition to zero-time yields
+          WithWalFaults, \* WAL writes may fail (I/O fault injection)
           WithStop,     \* drivers may call stop() / cancel a bus's background task
           TimeoutTypes, \* event types created with a handler timeout (a set; {} = no timeouts)
           KeepLog       \* keep the sequence of emitted lines (spec->code replay of simulated behaviours); FALSE when model checking
@@ -544,11 +545,37 @@ HCancelExit(a) ==
 
 \* tail of process_event (WAL off): mark complete, walk up the parents, history cleanup (probe line ProcE)
 XTasksOf(t) == {k \in 1..nx : task[XT(k)].owner = t /\ task[XT(k)].pc # "free"}
-OwnerTail(t) ==
+IsWal(b) == LET r == BusRec(Cfg, b) IN "wal" \in DOMAIN r /\ r.wal
+HandlersFinished(t) ==
   /\ task[t].fe # 0 /\ t[1] # "x"
   /\ \/ (cur = t /\ task[t].pc = "pb") \/ (cur = NoTask /\ task[t].pc = "mon" /\ ~task[t].canc)
      \/ (cur = NoTask /\ task[t].pc = "pwait" /\ \A k \in XTasksOf(t) : task[XT(k)].pc = "done")
   /\ task[t].todo = <<>>
+\* write-ahead log (C17): after the handlers, before the completion mark; open / write / close each suspend once; errors are swallowed
+WalBegin(t) ==
+  /\ HandlersFinished(t) /\ IsWal(task[t].fb)
+  /\ task' = [task EXCEPT ![t].pc = "wal1"] /\ cur' = NoTask
+  /\ UNCHANGED <<nev, ev, q, unf, shut, hist, running, idle, semv, depth, lockq, nact, nx, o>>
+WalOpen(t, fault) ==
+  /\ cur = NoTask /\ task[t].pc = "wal1" /\ (fault => WithWalFaults)
+  /\ IF fault
+     THEN /\ o' = Obs(Line("WalFault") @@ [b |-> task[t].fb, e |-> task[t].fe, at |-> "open"], ev, nev, hist, q)
+          /\ task' = [task EXCEPT ![t].pc = "pbt"] /\ cur' = t
+     ELSE /\ task' = [task EXCEPT ![t].pc = "wal2"] /\ UNCHANGED <<o, cur>>
+  /\ UNCHANGED <<nev, ev, q, unf, shut, hist, running, idle, semv, depth, lockq, nact, nx>>
+WalWrite(t, fault) ==
+  /\ cur = NoTask /\ task[t].pc = "wal2" /\ (fault => WithWalFaults)
+  /\ o' = Obs(Line(IF fault THEN "WalFault" ELSE "Wal") @@ [b |-> task[t].fb, e |-> task[t].fe, at |-> "write"], ev, nev, hist, q)
+  /\ task' = [task EXCEPT ![t].pc = "wal3"]
+  /\ UNCHANGED <<nev, ev, q, unf, shut, hist, running, idle, semv, depth, lockq, nact, nx, cur>>
+WalClose(t) ==
+  /\ cur = NoTask /\ task[t].pc = "wal3"
+  /\ task' = [task EXCEPT ![t].pc = "pbt"] /\ cur' = t
+  /\ UNCHANGED <<nev, ev, q, unf, shut, hist, running, idle, semv, depth, lockq, nact, nx, o>>
+
+OwnerTail(t) ==
+  /\ \/ HandlersFinished(t) /\ ~IsWal(task[t].fb)
+     \/ cur = t /\ task[t].pc = "pbt"
   /\ LET b == task[t].fb  e == task[t].fe
          E1 == Mark(ev, e)
          E2 == MarkUp(E1, hist, e, {})
@@ -645,7 +672,7 @@ InlineTake(a, b) ==
 \* can some other task take a step without time passing?  (1000 zero-sleeps exhaust all of those)
 ZeroTimeRunnable(t) ==
   \E u \in Tasks \ {t} :
-     \/ task[u].pc \in {"new", "got", "granted", "hdone", "mon", "monx", "cancelled", "pollx", "dying", "dyingt", "yield", "spin", "xnew", "idle_yield"}
+     \/ task[u].pc \in {"new", "got", "granted", "hdone", "mon", "monx", "cancelled", "pollx", "dying", "dyingt", "wal1", "wal2", "wal3", "yield", "spin", "xnew", "idle_yield"}
      \/ task[u].pc = "pwait" /\ \A k \in XTasksOf(u) : task[XT(k)].pc = "done"
      \/ u[1] = "rl" /\ task[u].pc = "poll" /\ q[u[2]] # <<>>
      \/ u[1] = "d" /\ task[u].pc = "xaw" /\ ev[task[u].aw].sig
@@ -794,6 +821,7 @@ NextCore ==
   \/ \E b \in B : RLDrop(b) \/ RLPollExit(b) \/ RLDie(b) \/ RLShutExit(b) \/ OwnerAbandonRL(b) \/ RLDieLocked(b) \/ RLTakeDying(b)
   \/ \E t \in Tasks : SyncFinish(t, "ret") \/ SyncFinish(t, "raise") \/ SyncReturn(t) \/ (\E b \in B : \E ty \in Range(Types) : SyncDispatch(t, b, ty))
   \/ \E t \in Tasks : ParStart(t) \/ OwnerAbandon(t) \/ TimeoutFire(t)
+  \/ \E t \in Tasks : WalBegin(t) \/ WalClose(t) \/ (\E f \in BOOLEAN : WalOpen(t, f) \/ WalWrite(t, f))
   \/ \E a \in 1..MaxAct : HCancelAw(a) \/ HCancelExit(a)
   \/ \E k \in 1..MaxAct : XStart(k) \/ XEnd(k)
   \/ \E t \in Tasks : FwdReturn(t) \/ OwnerAbort(t) \/ ProcSelect(t) \/ OwnerNext(t) \/ OwnerResume(t) \/ OwnerTail(t) \/ OwnerEpilogue(t)
@@ -838,7 +866,7 @@ EndLine ==
   Line("End") @@ [blocked |-> SetToSeq({[d |-> i, op |-> IF task[DT(i)].pc = "xaw" THEN "a" ELSE "idle"] : i \in {j \in 1..NDrv : task[DT(j)].pc # "run"}}),
                   open |-> SetToSeq({a \in 1..nact : task[HT(a)].pc # "done"}), abort |-> "", failed |-> <<>>,
                   crldone |-> SetToSeq({b \in B : task[RL(b)].pc \in {"none", "dead"}} \cup o.restart),   \* (a restarted bus: the model only restarts after the old task ended)
-                  wal |-> <<>>]
+                  wal |-> SetToSeq({<<b, [i \in 1..Len(o.walw[b]) |-> <<o.walw[b][i], TRUE>>]>> : b \in {x \in B : IsWal(x)}})]
 EndWitnesses == StepCore(Cfg, o, o, EndLine).wit
 \* at every state where nothing can move any more, the end-of-execution clauses hold (modulo recorded findings)
 TerminalOK == (~ENABLED Next) => Unexplained(EndWitnesses) = {}
